@@ -401,6 +401,38 @@ def oracle(p):
             except Exception as e:  # noqa
                 fail(f"C04:FlowFields:raises:{type(e).__name__}", f"raises {type(e).__name__}: {str(e)[:140]}", grids=gds)
 
+    # resizing operations reached through a NEGATIVE level count (downsample(-k) = upsample(k) and vice versa), for every
+    # combination of the grid's flag and the align_corners argument: data and grid must use the same effective flag
+    for D in (2, 3):
+        for flag in (True, False):
+            for ac in (None, True, False):
+                for meth, op in (("downsample", {"op": "down", "levels": -1, "min_size": 0, "ac": ac, "sigma": None, "dims": None}),
+                                 ("upsample", {"op": "up", "levels": -1, "ac": ac, "dims": None})):
+                    try:
+                        gd = dict(size=[4, 6, 4][:D], spacing=[1.0, 1.5, 0.5][:D], center=[2.0, -1.0, 0.5][:D],
+                                  direction=rand_dir(rng, D), align_corners=flag)
+                        g = mk(gd)
+                        A = [0.75, -1.25, 0.5][:D]
+                        w = g.index_to_world(g.coords(normalize=False).double(), decimals=None).double()
+                        dat = ((w * torch.tensor(A, dtype=torch.float64)).sum(-1) + 1.5).unsqueeze(0).unsqueeze(0)
+                        b = ImageBatch(dat, g)
+                        m = ImageBatch(torch.ones_like(dat), g)
+                        if meth == "upsample":   # upsample(-1) = downsample(1): no smoothing so that the ramp is exact
+                            b2, m2 = b.upsample(-1, sigma=0, align_corners=ac), m.upsample(-1, sigma=0, align_corners=ac)
+                        else:
+                            b2, m2 = apply_img(b, op), apply_img(m, op, True)
+                        g_new = b2.grid(0)
+                        src = g.world_to_index(g_new.index_to_world(g_new.coords(normalize=False).double(), decimals=None), decimals=None).double()
+                        n_old = torch.tensor([float(v) for v in g.size()], dtype=torch.float64)
+                        ind = ((src >= -1e-6) & (src <= n_old - 1 + 1e-6)).all(-1).double()
+                        m2 = ImageBatch(m2.tensor().double() * ind.unsqueeze(0).unsqueeze(0), m2.grids())
+                        counts["probes"] += 1
+                        eff = flag if ac is None else ac
+                        check_stage(fail, f"ImageBatch.{meth}:negative-levels:effective-align_corners-{eff}", b2, m2, A, 1.5,
+                                    dict(grids=[gd], ops=[dict(op, method=meth)], A=A, b=1.5), 1e-4 * (float(dat.abs().max()) + 1))
+                    except Exception as e:  # noqa
+                        fail(f"C04:ImageBatch.{meth}:negative-levels:raises:{type(e).__name__}", f"raises {type(e).__name__}: {str(e)[:140]}",
+                             grid_flag=flag, ac=ac, D=D)
     # sampling a batch whose images lie on DIFFERENT grids on one shared target grid (also a target equal to the grid of
     # image 0): every entry must be that image sampled alone on the target
     for it in range(max(6, p["n"] // 10)):
